@@ -1199,4 +1199,157 @@ Proof.
         replace (av_type (mk k x) =? av_type (mk k (x + d))) with true by (destruct k; reflexivity).
         exists x. split; [reflexivity|]. right. split; lia.
 Qed.
+
+Fixpoint iseq_from (pend : bool) (p : option av) (its : list item) (sfx : list Z) : Prop :=
+  match its with
+  | [] => sfx = []
+  | it :: rest =>
+      exists sepz sfx', sfx = sepz ++ item_text it ++ sfx' /\ item_ok p it /\
+        (if pend then sepw sepz else sepz = []) /\ iseq_from true (Some (item_last it)) rest sfx'
+  end.
+
+Lemma iorig_app a b : iorig (a ++ b) = iorig a ++ iorig b.
+Proof. unfold iorig. now rewrite map_app, concat_app. Qed.
+
+Lemma print_loop_iseq : forall fuel args prev i n acc pend wrt cols awtl text w,
+  Forall goodc args -> Z.of_nat (length args) < 2 ^ 31 -> n = i + Z.of_nat (length args) ->
+  (args = [] -> pend = false) -> (forall p, prev = Some p -> scalar p) ->
+  print_vals_loop fuel o args prev i n acc pend wrt cols awtl = Some (text, w) ->
+  exists its sfx, text = acc ++ sfx /\ w = wrt + len sfx - (if pend then 1 else 0) /\
+    iseq_from pend prev its sfx /\ iorig its = args /\ (args = [] -> its = []).
+Proof.
+  induction fuel as [|fuel IH]; intros args prev i n acc pend wrt cols awtl text w Hg Hlen Hn Hpe Hprev Hrun;
+    [discriminate|].
+  cbn [print_vals_loop] in Hrun.
+  destruct args as [|a0 rest].
+  - cbn in Hn. replace (n <=? i) with true in Hrun by lia. inversion Hrun; subst.
+    exists [], []. rewrite app_nil_r, (Hpe eq_refl). cbn. repeat split; lia.
+  - cbn [length] in Hn. replace (n <=? i) with false in Hrun by lia.
+    destruct (convert_to_range o (a0 :: rest) (n - i)) as [|c kk|] eqn:Ecv; [| |discriminate].
+    all: match type of Hrun with context [print_arg_val ?oo ?inp ?cc ?pp] =>
+           destruct (print_arg_val oo inp cc pp) as [[[[t tmp] cols1] bb]|] eqn:Epr; [|discriminate] end.
+    all: match type of Ecv with _ = ?cv =>
+           destruct (print_iter a0 rest (n - i) prev t tmp cols cols1 bb cv Hg Hlen Hprev Ecv ltac:(discriminate) Epr)
+             as (its1 & inc & -> & -> & Hinc & Hrange & Horig & Hit & Hnth) end.
+    all: destruct (if breaks_itself (av_type a0) then (false, cols1, awtl)
+                   else lb_check (linelength o) cols1 (len t) awtl) as [[brk_ cols2] awtl2] eqn:Elb.
+    all: rewrite orb_false_r in Hrun; destruct (brk_ && negb pend) eqn:Ebp; [discriminate|].
+    all: set (sepz := if brk_ then nl4 else if pend then [32] else []) in *.
+    all: assert (Hsepz : if pend then sepw sepz else sepz = [])
+           by (subst sepz; destruct pend, brk_; cbn in *; try reflexivity; try discriminate;
+               [apply sepw_nl4|apply sepw_32]).
+    all: assert (Hlz : len sepz = (if brk_ then 4 else 0) + (if pend then 1 else 0))
+           by (subst sepz; destruct pend, brk_; cbn in *; try reflexivity; discriminate).
+    all: rewrite <- Hinc in Hrun.
+    all: assert (Hsk : skipz (Z.of_nat inc) (a0 :: rest) = skipn inc (a0 :: rest)) by (unfold skipz; now rewrite Nat2Z.id).
+    all: assert (Hnt : nth_error (a0 :: rest) (Z.to_nat (Z.of_nat inc - 1)) = ilast its1)
+           by (replace (Z.to_nat (Z.of_nat inc - 1)) with (inc - 1)%nat by lia; exact Hnth).
+    all: rewrite Hsk, Hnt in Hrun.
+    all: assert (Hl2 : length (skipn inc (a0 :: rest)) = (length (a0 :: rest) - inc)%nat) by apply skipn_length.
+    all: assert (Hil : exists lst, ilast its1 = Some (item_last lst) /\ exists pp, item_ok pp lst)
+           by (destruct its1 as [|it1 [|it2 [|? ?]]]; cbn [iter_text] in Hit; try contradiction;
+               [exists it1; split; [reflexivity|exists prev; apply Hit]
+               |exists it2; split; [reflexivity|exists (Some (item_last it1)); apply Hit]]).
+    all: destruct Hil as (lst & Eil & pp & Hokl).
+    all: assert (Hprev2 : forall p, ilast its1 = Some p -> scalar p)
+           by (intros p Ep; rewrite Eil in Ep; inversion Ep; subst; exact (item_scalar_last _ _ _ _ Hokl)).
+    all: assert (Hg2 : Forall goodc (skipn inc (a0 :: rest)))
+           by (rewrite <- (firstn_skipn inc (a0 :: rest)) in Hg; now apply Forall_app in Hg as [_ Hg]).
+    all: destruct (i + Z.of_nat inc <? n) eqn:Ein;
+         (apply IH in Hrun; [|exact Hg2|rewrite Hl2; cbn [length] in *; lia|rewrite Hl2; cbn [length] in *; lia
+                             |intros Es; first [reflexivity|exfalso; rewrite Es in Hl2; cbn [length] in *; lia]|exact Hprev2]).
+    all: destruct Hrun as (its2 & sfx2 & -> & -> & Hseq2 & Horig2 & Hnil2).
+    all: assert (Hseq2' : iseq_from true (ilast its1) its2 sfx2)
+           by (first [exact Hseq2
+                     |assert (E0 : skipn inc (a0 :: rest) = [])
+                        by (apply length_zero_iff_nil; rewrite Hl2; cbn [length] in *; lia);
+                      rewrite (Hnil2 E0) in *; exact Hseq2]).
+    all: exists (its1 ++ its2), (sepz ++ t ++ sfx2).
+    all: split; [now rewrite <- !app_assoc|].
+    all: split; [rewrite !len_app; lia|].
+    all: split; [|split; [rewrite iorig_app, Horig, Horig2; apply firstn_skipn|discriminate]].
+    all: rewrite Eil in Hseq2'.
+    all: destruct its1 as [|it1 [|it2 [|? ?]]]; cbn [iter_text] in Hit; try contradiction.
+    all: cbn [app iseq_from].
+    all: try (destruct Hit as (-> & Hok1); cbn [ilast rev app] in Eil; inversion Eil as [El]; rewrite <- El in Hseq2';
+              exists sepz, sfx2; (split; [reflexivity|]); (split; [exact Hok1|]); split; [exact Hsepz|exact Hseq2']).
+    all: destruct Hit as (-> & Hok1 & Hok2); cbn [ilast rev app] in Eil; inversion Eil as [El]; rewrite <- El in Hseq2';
+         exists sepz, ([32] ++ item_text it2 ++ sfx2); (split; [now rewrite <- !app_assoc|]); (split; [exact Hok1|]);
+         (split; [exact Hsepz|]); exists [32], sfx2; (split; [reflexivity|]); (split; [exact Hok2|]);
+         split; [apply sepw_32|exact Hseq2'].
+Qed.
 End PrintLoop.
+
+Section Final.
+Variables dec2f dec2d : list Z -> Z.
+
+Lemma iseq_from_iseq : forall its pend p sfx,
+  iseq_from dec2f dec2d pend p its sfx -> its <> [] ->
+  exists sepz T, sfx = sepz ++ T /\ iseq dec2f dec2d p its T /\ (if pend then sepw sepz else sepz = []).
+Proof.
+  induction its as [|it its IH]; intros pend p sfx H Hne; [congruence|].
+  cbn [iseq_from] in H. destruct H as (sepz & sfx' & -> & Hok & Hs & Hl).
+  destruct its as [|it' its'].
+  - cbn in Hl. subst sfx'. exists sepz, (item_text it). rewrite app_nil_r.
+    split; [reflexivity|]. split; [now constructor|assumption].
+  - destruct (IH true _ sfx' Hl ltac:(discriminate)) as (sepz' & T' & -> & HL & Hs').
+    exists sepz, (item_text it ++ sepz' ++ T'). split; [reflexivity|]. split; [|assumption].
+    now constructor.
+Qed.
+
+(* the round trip with range compression on: the scanned slots expand to the values *)
+Theorem roundtrip_compressed o vs text w :
+  compress o = true -> Forall goodc vs -> Z.of_nat (length vs) < 2 ^ 31 ->
+  print_arg_vals o vs 0 = Some (text, w) ->
+  exists slots,
+    w = len text /\
+    count_printed_arg_vals dec2f dec2d text = Ok (true, Z.of_nat (length slots)) /\
+    scan_arg_vals dec2f dec2d text (Z.of_nat (length slots)) = Ok (slots, []) /\
+    expand slots = Some vs.
+Proof.
+  intros Hon Hg Hlen Hp. unfold print_arg_vals in Hp.
+  apply (print_loop_iseq dec2f dec2d o Hon) in Hp; try assumption; try lia; try reflexivity; try discriminate.
+  destruct Hp as (its & sfx & -> & -> & Hseq & Horig & Hnil). cbn [app].
+  destruct its as [|it its].
+  - cbn in Hseq. subst sfx. exists []. cbn in Horig. subst vs.
+    repeat split; reflexivity.
+  - destruct (iseq_from_iseq _ _ _ _ Hseq ltac:(discriminate)) as (sepz & T & -> & HL & ->). cbn [app].
+    exists (islots (it :: its)). split; [lia|].
+    destruct (iseq_reads dec2f dec2d _ _ HL) as [Hc Hs]. split; [exact Hc|]. split; [exact Hs|].
+    rewrite <- Horig. exact (expand_items dec2f dec2d _ _ _ HL).
+Qed.
+End Final.
+
+Lemma expand_scalars vs : Forall scalar vs -> expand vs = Some vs.
+Proof.
+  unfold expand. induction 1 as [|v vs Hv Hs IH]; [reflexivity|].
+  cbn [length]. rewrite (expand_f_val (S (length vs)) v vs Hv), IH. reflexivity.
+Qed.
+
+(* for every option record - compression on or off *)
+Theorem roundtrip_any (dec2f dec2d : list Z -> Z) o vs text w :
+  Forall goodc vs -> Z.of_nat (length vs) < 2 ^ 31 ->
+  print_arg_vals o vs 0 = Some (text, w) ->
+  exists slots,
+    w = len text /\
+    count_printed_arg_vals dec2f dec2d text = Ok (true, Z.of_nat (length slots)) /\
+    scan_arg_vals dec2f dec2d text (Z.of_nat (length slots)) = Ok (slots, []) /\
+    expand slots = Some vs.
+Proof.
+  intros Hg Hlen Hp. destruct (compress o) eqn:Ec.
+  - exact (roundtrip_compressed dec2f dec2d o vs text w Ec Hg Hlen Hp).
+  - assert (Hgv : Forall good_val vs) by (eapply Forall_impl; [|exact Hg]; apply goodc_good).
+    destruct (roundtrip_scalars dec2f dec2d o vs text w Ec Hgv Hp) as (Hw & Hc & Hs).
+    exists vs. repeat split; try assumption. apply expand_scalars.
+    eapply Forall_impl; [|exact Hg]. intros a Ha. apply (goodc_facts a Ha).
+Qed.
+
+Lemma roundtrip_any_example :
+  Forall goodc ([VT; VT; VT; VT; VT; VI 7] ++ map VI [1; 2; 3; 4; 5; 6] ++ map VH [10; 20; 30; 40; 50]) /\
+  exists text w, print_arg_vals {| lossless := true; prec := 2; linelength := 20; compress := true |}
+    ([VT; VT; VT; VT; VT; VI 7] ++ map VI [1; 2; 3; 4; 5; 6] ++ map VH [10; 20; 30; 40; 50]) 0 = Some (text, w).
+Proof.
+  split.
+  - cbn [app map]. repeat constructor; cbn; lia.
+  - eexists _, _. vm_compute. reflexivity.
+Qed.
